@@ -721,6 +721,22 @@ pub fn families(tier: Tier, _variant: &str) -> Vec<Family> {
         }
         v.push(Family::of_vec("corpus-string-literals", lits, move |l, ctx| check_literal(ctx, l, both, &f2[..1])));
     }
+    // 6c. a backslash followed by every byte value: alone, inside text, after another escape, and as
+    // the last character
+    v.push(Family::new("backslash+every-byte", 256 * 4, move |idx, ctx| {
+        let b = (idx / 4) as u8;
+        let (pre, post): (&[u8], &[u8]) = match idx % 4 {
+            0 => (b"", b""),
+            1 => (b"ab", b"cd"),
+            2 => (b"\\n", b"0000"),
+            _ => (b"0123456789012345678901234567890123456789", b""),
+        };
+        let mut body = pre.to_vec();
+        body.push(b'\\');
+        body.push(b);
+        body.extend_from_slice(post);
+        check_literal(ctx, &lit_of(&body), both, f2);
+    }));
     // 7. (escape head) + plain run of every length + every short B11 tail: every continuation at
     // every offset of the scanners, before and after the string's first escape
     {
